@@ -29,6 +29,7 @@ def run(ctx):
     ctx.each(r18b, ctx, repo, T, cg)
     ctx.each(r18c, ctx, repo)
     ctx.each(r18d, ctx, repo)
+    ctx.each(r18e, ctx, repo)
 
 
 # ---------------------------------------------------------------------------------------------- R18a
@@ -482,3 +483,45 @@ def r18d(ctx, repo):
     dag = [s_ for s_ in own_nodes(fi.node) if isinstance(s_, ast.If) and "is_directed_acyclic_graph" in ast.unparse(s_.test)]
     ok = bool(dag) and isinstance(dag[0].test, ast.UnaryOp) and isinstance(dag[0].test.op, ast.Not) and any(isinstance(r, ast.Raise) and r.exc is not None and "InvalidFramework" in ast.unparse(r.exc) for r in ast.walk(dag[0])) and all(dag[0].lineno > l.end_lineno for l in loops) and not K.enclosing_loops(dag[0]) and not [g for g in guards_of(dag[0])]
     ctx.check(bool(ok), "R18d", fi, dag[0] if dag else fi.node, "acyclicity tested unconditionally after the scan, refusal uses InvalidFramework", "the cycle test no longer runs unconditionally after all parameters were scanned, or does not raise InvalidFramework", stmt_text="dag-test")
+
+
+WHOLE_STRING = {"strip", "lower", "casefold", "upper", "lstrip", "rstrip"}
+
+
+def _whole_string_of(e, base):
+    """True if ``e`` is ``base`` passed only through whole-string normalisers (no split, slice, index, startswith)."""
+    while isinstance(e, ast.Call) and isinstance(e.func, ast.Attribute) and e.func.attr in WHOLE_STRING and not e.args:
+        e = e.func.value
+    return ast.unparse(e) == base
+
+
+def r18e(ctx, repo):
+    ctx.rule("R18e", "a unit mismatch between databook and framework is rejected, not repaired: ProjectData.from_spreadsheet replaces the units read from the sheet by the framework's only when the sheet gave none or gave exactly the bare unit type; the comparison looks at the whole entered string (strip / lower only), so 'Rate (per week)' is never relabelled 'Rate (per year)'")
+    fi = repo.func("data", "ProjectData.from_spreadsheet")
+    n = 0
+    for s_ in own_nodes(fi.node):
+        if not (isinstance(s_, ast.Assign) and len(s_.targets) == 1 and isinstance(s_.targets[0], ast.Attribute) and s_.targets[0].attr == "units"):
+            continue
+        base = ast.unparse(s_.targets[0])
+        if "allowed_units" not in ast.unparse(s_.value) and "units" not in ast.unparse(s_.value):
+            continue
+        n += 1
+        parent = getattr(s_, "_parent", None)
+        if not (isinstance(parent, ast.If) and s_ in parent.body):
+            ctx.fail("R18e", fi, s_, "`%s` overwrites the units read from the sheet unconditionally: a databook whose units contradict the framework is accepted and its numbers are used in the wrong units" % norm(s_))
+            continue
+        t = parent.test
+        disj = t.values if isinstance(t, ast.BoolOp) and isinstance(t.op, ast.Or) else [t]
+        bad = []
+        for d in disj:
+            dt = ast.unparse(d)
+            if dt in ("not %s" % base, "%s is None" % base, "%s == ''" % base, "not %s.strip()" % base):
+                continue
+            if isinstance(d, ast.Compare) and len(d.ops) == 1 and isinstance(d.ops[0], ast.Eq):
+                sides = [d.left, d.comparators[0]]
+                mine = [x for x in sides if base in ast.unparse(x)]
+                if len(mine) == 1 and _whole_string_of(mine[0], base):
+                    continue
+            bad.append(dt)
+        ctx.check(not bad, "R18e", fi, s_, "units replaced only when absent or equal (as a whole string) to the bare unit type", "`%s` is executed when `%s`, which looks at only part of the units the user entered: a databook stating the same kind of unit on another timescale or denominator is silently relabelled with the framework's units instead of being rejected with InvalidDatabook" % (norm(s_)[:60], bad[0][:100] if bad else ""))
+    ctx.require(n >= 1, "R18e: the unit migration in ProjectData.from_spreadsheet was not found")
